@@ -340,6 +340,11 @@ class StorageServer(service.MultiService):
                 # occurs while the first is still in progress, the second
                 # uploader will use different storage servers.
                 pass
+            elif self.readonly_storage:
+                # a read-only server accepts no new shares, not even empty ones
+                # (remaining_space is 0 here, which a zero-size request would
+                # otherwise satisfy).
+                pass
             elif (not limited) or (remaining_space >= max_space_per_bucket):
                 # ok! we need to create the new share file.
                 bw = BucketWriter(self, incominghome, finalhome,
